@@ -237,7 +237,7 @@ func evalC20(c c20Case, o *Obs) error {
 		byWrapped[i].Hash()
 	}
 	overlaps := 0
-	defer c20Watchdog("a generated program (all its repetitions)", 120)()
+	defer c20Watchdog("a generated program", 90)()
 	for rep := 0; rep < reps; rep++ {
 		f := bloom.LoadFilter(wire.NewMsgFilterLoad(make([]byte, c.Len), c.K, c.Tweak, wire.BloomUpdateType(c.Flags)))
 		for i := 0; i < c.Preload && i < len(c.Items); i++ {
@@ -313,6 +313,7 @@ func evalC20(c c20Case, o *Obs) error {
 						ev.out, ev.outValid = f.MsgFilterLoad() != nil, true // contents are not touched while others run
 					}
 					ev.ret = int64(time.Since(t0))
+					c20Progress.Add(1)
 				}
 			}()
 		}
@@ -336,6 +337,7 @@ func evalC20(c c20Case, o *Obs) error {
 				case "matchtx":
 					byGot[i] = f2.MatchTxAndUpdate(byWrapped[in.op.Item])
 				}
+				c20Progress.Add(1)
 			}
 		}()
 		close(start)
@@ -506,6 +508,11 @@ func genC20(t *rapid.T) c20Case {
 	if len(c.Txs.Txs) > 4 {
 		c.Txs.Txs = c.Txs.Txs[:4]
 	}
+	for i := range c.Txs.Txs { // C10's 65536-output transactions are for C10; here every operation is repeated thousands of times
+		if c.Txs.Txs[i].PadOuts > 300 {
+			c.Txs.Txs[i].PadOuts = 300
+		}
+	}
 	if rapid.IntRange(0, 3).Draw(t, "manyouts") == 0 {
 		// one transaction with dozens of outputs, most of which carry watched items
 		big := c10Tx{LockTime: 99, Ins: []c10In{{Src: -3, Out: 7, Script: scriptSpec{Cls: "empty"}}}}
@@ -670,31 +677,53 @@ func c20Join(wg *sync.WaitGroup, panicCh <-chan error, prog string) error {
 	}
 }
 
+// c20Progress is bumped by every worker after every filter call that returned.
+var c20Progress atomic.Int64
+
 // c20Watchdog: filter calls that never return (a lock taken twice, a lock never released) cannot be judged
-// after the fact.  If the guarded section is still running after the given number of seconds, the process
-// reports a hang for the case saved in current-case.json and exits; the driver turns that into a violation
-// whose replay is that case.  The returned function disarms the watchdog.
+// after the fact.  A guarded section is declared hung when NO filter call at all has returned for the given
+// number of seconds - slowness (a loaded machine, long programs, the race detector) keeps making progress and
+// is not a hang.  The process then reports the hang for the case saved in current-case.json and exits; the
+// driver turns that into a violation whose replay is that case.  The returned function disarms the watchdog.
 func c20Watchdog(what string, seconds int) func() {
-	wd := time.AfterFunc(time.Duration(seconds)*time.Second, func() {
-		msg := fmt.Sprintf("%s did not finish within %d s: some filter call never returned (deadlock)", what, seconds)
-		buf := make([]byte, 1<<16)
-		buf = buf[:runtime.Stack(buf, true)]
-		var frames []string
-		for _, l := range strings.Split(string(buf), "\n") {
-			if strings.Contains(l, "bchutil/bloom.") || strings.Contains(l, "bchutil/gcs.") {
-				frames = append(frames, strings.TrimSpace(l))
+	stop := make(chan struct{})
+	go func() {
+		last, since := c20Progress.Load(), time.Now()
+		tick := time.NewTicker(2 * time.Second)
+		defer tick.Stop()
+		for {
+			select {
+			case <-stop:
+				return
+			case <-tick.C:
 			}
+			if now := c20Progress.Load(); now != last {
+				last, since = now, time.Now()
+				continue
+			}
+			if time.Since(since) < time.Duration(seconds)*time.Second {
+				continue
+			}
+			msg := fmt.Sprintf("%s: no filter call has returned for %d s (deadlock: a lock taken twice or never released)", what, seconds)
+			buf := make([]byte, 1<<16)
+			buf = buf[:runtime.Stack(buf, true)]
+			var frames []string
+			for _, l := range strings.Split(string(buf), "\n") {
+				if strings.Contains(l, "bchutil/bloom.") || strings.Contains(l, "bchutil/gcs.") {
+					frames = append(frames, strings.TrimSpace(l))
+				}
+			}
+			if len(frames) > 12 {
+				frames = frames[:12]
+			}
+			if outDir != "" {
+				os.WriteFile(filepath.Join(outDir, "hang.txt"), []byte(msg+"; blocked in: "+strings.Join(frames, " | ")), 0o644)
+			}
+			fmt.Printf("HANG property=C20 %s\n", msg)
+			os.Exit(3)
 		}
-		if len(frames) > 12 {
-			frames = frames[:12]
-		}
-		if outDir != "" {
-			os.WriteFile(filepath.Join(outDir, "hang.txt"), []byte(msg+"; blocked in: "+strings.Join(frames, " | ")), 0o644)
-		}
-		fmt.Printf("HANG property=C20 %s\n", msg)
-		os.Exit(3)
-	})
-	return func() { wd.Stop() }
+	}()
+	return func() { close(stop) }
 }
 
 // ---- kind: lockstep rounds ----------------------------------------------------------------------
@@ -730,7 +759,7 @@ func evalC20Lock(c c20Lock, o *Obs) error {
 	}
 	o.NT()
 	o.Class("C20:lockstep-rounds")
-	defer c20Watchdog("lockstep rounds", 120)()
+	defer c20Watchdog("lockstep rounds", 90)()
 	f := bloom.LoadFilter(nil)
 	item := []byte("lockstep item")
 	var round, arrived atomic.Int64
@@ -766,6 +795,7 @@ func evalC20Lock(c c20Lock, o *Obs) error {
 				case "matches":
 					f.Matches(item)
 				}
+				c20Progress.Add(1)
 				arrived.Add(1)
 			}
 		}()
